@@ -146,7 +146,7 @@ def remove_pad(value: str) -> str:
         >>> remove_pad('0123')
         '123'
     """
-    return _last_char if (_last_char := value[-1]) == "0" else value.lstrip("0")
+    return value.lstrip("0") or "0"
 
 
 def bytes2str(value: String) -> str:
